@@ -13,6 +13,11 @@ CLAIMED = {
    note="Trusted: feops.rs (operation model: local-rejection rules from the property text, expected handler invocation), fstat/fdinfo identities instead of kcmp (not available). 'Accepted arguments' are protocol-valid ones; SET_LOG_FD and SET_LOG_BASE without shmfd region cannot be served by this back-end server and are skipped in sessions. Handler results are always success here (C03 covers failures).",
    technique="model-based (stateful) property testing with proptest sessions across both real endpoints + raw-peer byte accounting",
    ref="DESIGN.md section 3, C02"),
+ "C03": dict(level="exploration",
+   text="Property testing across both real endpoints: for every reply-bearing operation and every acknowledged set-operation a scripted handler outcome (success with lattice values / generated config bytes / with or without file, Err of each of the 16 error variants, unusable success such as wrong-length config bytes or a queue count above the maximum) is injected at a random position of a session, under REPLY_ACK on/off x NEED_REPLY on/off; the call runs in a helper thread. Usable success must come back as exactly the handler's values, bytes and the very file (identity); anything else must come back as an error, and the call must return at all: a call that never returns is diagnosed by quiescence (caller asleep, server asleep or stopped, no byte in flight over many looks), not by a deadline.",
+   note="Trusted: the session machinery of props/c02.rs, the server thread's emulation of the daemon policy (stop serving and shut the socket down at the first request error). Set-operations without a negotiated acknowledgement are only checked not to hang. A server that keeps a dead request's connection open (policy the library leaves to its caller) is not modelled.",
+   technique="property-based fault injection (scripted handler outcomes) over proptest sessions, quiescence-based hang detection",
+   ref="DESIGN.md section 3, C03"),
  "C04": dict(level="exploration",
    text="Model-based testing of the real BackendReqHandler: every word up to depth 3 (quick) / 4 (thorough) over a 21-symbol reduced alphabet x {protocol features offered or not} is executed exhaustively, plus thousands of random histories (length <= 12) over all 44 request codes with generated bodies, NEED_REPLY flags and scripted handler outcomes; the bytes the server writes are compared frame by frame with a reference protocol model and a sentinel request proves exact consumption. Histories are an unbounded space, so bounded-exhaustive + random exploration is the level claimed.",
    note="Trusted: spec.rs (request table and layouts transcribed from the vhost-user specification), the protocol model in props/c04.rs. Stated tolerances: the SET_PROTOCOL_FEATURES that flips REPLY_ACK may or may not be acked; requests rejected before the handler may produce nothing or one non-zero ack; SET_LOG_BASE reply payload and the 4 padding bytes of the inflight description are spec-silent.",
